@@ -110,6 +110,15 @@ def run(prop, tier, seed):
                                                   + tables.v4_tables("quick", seed)[2:3], work, seed)
         strings += reps
         c.extra["score_value_representatives"] = len(reps)
+        # every base-only vector of v2 and v3 (finite: 729 + 2 x 2 592) and a seeded 3 000 of v4
+        import itertools
+        for ver in "234":
+            combos = list(itertools.product(*[corpus.VALS[ver][m] for m in corpus.MAND[ver]]))
+            if ver == "4":
+                combos = rnd.sample(combos, 3000 if not big else 30000)
+            for combo in combos:
+                for minor in ([0, 1] if ver == "3" else [-1]):
+                    strings.append((ver, corpus.spell(ver, minor, dict(zip(corpus.MAND[ver], combo)))))
         for ver in "2":      # every v2 base vector with zero impact x an optional metric: 0.0 scores in optional groups
             for _ in range(60 if not big else 600):
                 g = corpus.random_assignment(rnd, ver, p_opt=0.5)
